@@ -43,3 +43,7 @@ reg("C15", "exploration",
     "Metamorphic check: up to 5 composed layout rewrites (indentation incl. Unicode blanks, trailing whitespace, blank/comment lines, letter case of types/names/defined names/references/keys, both spellings of empty sections, swaps of adjacent key lines and of key lines with section blocks) applied to C01 texts and to texts for the shipped logger and basic-mapping components must leave the value tree or the fact of rejection unchanged.",
     "No reference model. Key case is varied only where every key type of the schema is case-insensitive; lines are never moved across directives; logger factories are compared by configuration, not called.",
     "random generation + metamorphic relation (layout rewrites)")
+reg("C14", "exploration",
+    "Metamorphic check: for accepted C01 texts with sections, 1..4 override specifiers (by name / by type / mixed case, depths 0..3, single, multi and wildcard keys, absent top-level keys, missing sections and keys, convertible and unconvertible values, '$' and '=' in values) are applied both through loadConfigFile(overrides=...) and as the hand edit the statement describes; outcomes must be equal (digest-equal tree or both rejected); unresolvable paths must be rejected; unconvertible values must surface as DataConversionError; malformed specifiers must be refused by addOption with ConfigurationSyntaxError.",
+    "The hand edit is zcv's own text surgery (first matching child section in file order; lines of the same normalised key dropped; '$' doubled). U15 components and values with surrounding blanks are not generated.",
+    "random generation + metamorphic relation (override == text edit)")
